@@ -637,6 +637,12 @@ func exec(line string, st *hx.Stats) string {
 	var outs []string
 	for _, b := range []uint32{10, 3, 10, 3} {
 		o := listUsersOnce(ts, tuples, ctxT, rq, depth, b, deadline, false)
+		if o == "E deadline" {
+			// expensive expansions (cyclic models, depth 25) can exceed the deadline on a loaded machine:
+			// one retry with a long deadline; a second miss is reported
+			st.Inc("deadline-retry")
+			o = listUsersOnce(ts, tuples, ctxT, rq, depth, b, 6*deadline, false)
+		}
 		if !seen[o] {
 			seen[o] = true
 			outs = append(outs, o)
